@@ -114,7 +114,8 @@ func VerifC10RegisterPort() {
 	}
 	nListen := len(zzNet.listeners)
 	nUDP := len(zzNet.udpOpen)
-	name := []string{"a", "dup"}[zzverif.Choice("name", 2)]
+	// names are opaque: "dup " (trailing blank) is another name than "dup"
+	name := []string{"a", "dup", "dup "}[zzverif.Choice("name", 3)]
 	port := []int{0, 1000, 1001, 2000, -1, 70000}[zzverif.Choice("remotePort", 6)]
 	injectListenFail := zzverif.Bool("listenFails")
 	zzNet.failNext = injectListenFail
@@ -165,6 +166,11 @@ func VerifC10RegisterPort() {
 		zzverif.Assert(pm.ZZIsFree(real), "C10.close.port-free-again")
 		_, still := svr.pxyManager.GetByName(name)
 		zzverif.Assert(!still && zzCtlProxy(ctl, name) == nil, "C10.close.name-released")
+		if otherHolds {
+			// a close request affects only the sender's own proxies
+			op, ok := svr.pxyManager.GetByName("dup")
+			zzverif.Assert(ok && op == zzCtlProxy(other, "dup"), "C12.close.other-session's-proxy-untouched")
+		}
 		if max > 0 {
 			zzverif.Assert(ctl.portsUsedNum == usedBefore, "C10.close.quota-restored")
 		}
